@@ -12,7 +12,9 @@ def build_case(desc):
     if desc[0] == "fail":
         _, seed, kind, position, ctx, depth = desc
         prog, meta = F.generate(seed, kind=kind, position=position, ctx=ctx, depth=depth)
-        return {"prog": prog, "tags": ["kind:" + meta["kind"], "pos:" + str(meta["position"]), "ctx:" + meta["ctx"],
+        from .. import printer as P
+        lay = P.Layout(crlf=True) if seed % 7 == 0 else (P.Layout(seed=seed, p_blank=0.3, p_comment=0.3) if seed % 7 == 1 else None)
+        return {"prog": prog, "layout": lay, "tags": ["kind:" + meta["kind"], "pos:" + str(meta["position"]), "ctx:" + meta["ctx"],
                                        "depth:%d" % meta["depth"]] + ["call:" + f for f in meta["forms"]],
                 "meta": meta, "check_diag": True, "check_pos": True, "check_atoms": True, "trace": True, "keep_trace": True}
     if desc[0] == "prog":
